@@ -53,9 +53,9 @@ static rc::Gen<cw::W> tableW() {
     w.fs.root = gf::genSchema(o);
     for (size_t i = 0; i < w.fs.root.kids.size(); i++) w.fs.root.kids[i].name = "c" + std::to_string(i);
     auto lv = pw::leaves(w.fs.root);
-    w.codec = *rc::gen::element(0, 1, 2, 5, 6); w.page_size = *rc::gen::element<int64_t>(64, 256, 1 << 20); w.order = (uint32_t)*irange(1, 1 << 30);
+    w.codec = *rc::gen::element(0, 1, 2, 5, 6); w.page_size = *rc::gen::element<int64_t>(64, 256, 1 << 20); w.order = (uint32_t)*irange(1, 1 << 30); w.opts = *rc::gen::weightedOneOf<int>({{3, rc::gen::just(0)}, {2, irange(0, 15)}}); w.level = *rc::gen::element(0, 0, 1, 9, 19);
     for (int g = 0; g < 2; g++) {
-      size_t rows = (size_t)*irange(1, 25);
+      size_t rows = (size_t)*rc::gen::weightedOneOf<int>({{5, irange(1, 25)}, {1, irange(40, 90)}});   // sometimes enough rows for ten and more small pages per chunk
       w.fs.rg_rows.push_back((int64_t)rows);
       std::vector<pw::ChunkSpec> rg; std::vector<std::vector<int>> pc; std::vector<int> nl;
       for (auto &lf : lv) {
@@ -74,12 +74,39 @@ static rc::Gen<cw::W> tableW() {
     return w;
   });
 }
+// a wide table with long column names: the footer grows past several buffer doublings, so that allocation failures land
+// inside strings and lists of the metadata encoder / parser, not only in front of them
+static rc::Gen<cw::W> wideW() {
+  return rc::gen::exec([]() {
+    cw::W w;
+    w.fs.root.name = "schema"; w.fs.root.group = true;
+    int ncols = *irange(14, 40), nrg = *irange(1, 3);
+    std::string stem((size_t)*rc::gen::element(8, 40, 90), 'n');
+    for (int i = 0; i < ncols; i++) w.fs.root.kids.push_back(gf::leafNode(stem + "_" + std::to_string(i), i % 3 == 0 ? pq::OPTIONAL : pq::REQUIRED, i % 5 == 4 ? pq::BYTE_ARRAY : pq::INT32, 0));
+    auto lv = pw::leaves(w.fs.root);
+    w.codec = *rc::gen::element(0, 1); w.page_size = 1 << 20; w.order = (uint32_t)*irange(1, 1 << 30); w.opts = *rc::gen::element(0, 0, 2, 8, 15);
+    for (int g = 0; g < nrg; g++) {
+      size_t rows = (size_t)*irange(1, 4);
+      w.fs.rg_rows.push_back((int64_t)rows);
+      std::vector<pw::ChunkSpec> rg; std::vector<std::vector<int>> pc; std::vector<int> nl;
+      for (auto &lf : lv) {
+        pw::ChunkSpec cs; cs.n = rows;
+        if (lf.max_def) cs.def.assign(rows, 1);
+        for (size_t i = 0; i < rows; i++) cs.values.push_back(lf.type == pq::BYTE_ARRAY ? Bytes{'s', (uint8_t)('0' + i)} : Bytes{(uint8_t)i, 0, 0, 0});
+        pw::PageSpec pg; pg.end = rows; cs.pages.push_back(pg);
+        rg.push_back(cs); nl.push_back(0); pc.push_back({(int)rows});
+      }
+      w.fs.row_groups.push_back(rg); w.parts.push_back(pc); w.nolevels.push_back(nl); w.extra_nrg.push_back(0);
+    }
+    return w;
+  });
+}
 static rc::Gen<S> genS() {
   return rc::gen::mapcat(rc::gen::weightedOneOf<int>({{1, rc::gen::just(0)}, {3, rc::gen::just(1)}, {2, rc::gen::just(2)}, {3, rc::gen::just(3)}, {3, rc::gen::just(4)}, {3, rc::gen::just(5)}, {1, rc::gen::just(6)}}), [](int kind) -> rc::Gen<S> {
     if (kind == 0 || kind == 6) return rc::gen::map(irange(0, 140), [kind](int n) { S s; s.kind = kind; s.ncols = n; return s; });
     if (kind == 4) { gf::Opts o; o.max_cols = 3; o.max_rows = 20; o.max_rgs = 2; o.max_pages = 3; o.thrift_extras = false; o.layouts = false; o.stats = true;
       return rc::gen::map(rc::gen::tuple(gf::specGen(o), irange(0, 2), irange(1, 9)), [](const std::tuple<pw::FileSpec, int, int> &t) { S s; s.kind = 4; s.fs = std::get<0>(t); s.mode = std::get<1>(t); s.batch = std::get<2>(t); return s; }); }
-    return rc::gen::map(rc::gen::tuple(tableW(), irange(0, 2), irange(1, 9)), [kind](const std::tuple<cw::W, int, int> &t) { S s; s.kind = kind; s.w = std::get<0>(t); s.mode = std::get<1>(t); s.batch = std::get<2>(t); s.ncols = 0; return s; });
+    return rc::gen::map(rc::gen::tuple(rc::gen::weightedOneOf<cw::W>({{6, tableW()}, {1, wideW()}}), irange(0, 2), rc::gen::weightedOneOf<int>({{4, irange(1, 9)}, {1, irange(30, 120)}})), [kind](const std::tuple<cw::W, int, int> &t) { S s; s.kind = kind; s.w = std::get<0>(t); s.mode = std::get<1>(t); s.batch = std::get<2>(t); s.ncols = 0; return s; });
   });
 }
 
